@@ -339,7 +339,7 @@ func runEmbed(c Case, e *env) []Event {
 	}
 	src := embedSource(doc)
 	call := Event{"ev": "Call", "run": c.ID, "prop": e.prop, "f": f,
-		"tok": map[string]string{"ID": id, "TID": tid, "ROOT": rootName},
+		"tok":      map[string]string{"ID": id, "TID": tid, "ROOT": rootName},
 		"pageHost": pageHost, "m": src}
 	if showInputs {
 		call["html"] = page
